@@ -85,6 +85,16 @@ def rmEmpty (fs : FS) (ds : List Path) : FS :=
 
 def properAncestor (a b : Path) : Bool := a <+: b && a != b
 
+/-- the state in which the function of `build_file path` starts: parents made, target absent and
+    claimed, hidden from queries -/
+def setupState (s : SpecSt) (path : Path) (ds : List Path) : SpecSt :=
+  let fs1 := mkdirs s.fs ds
+  let fs2 := if fs1.isFile path then fs1.erase path else fs1
+  -- the documented obligation concerns outputs: targets that are being built or were built
+  let bad := (s.inProg ++ s.outputs).any (fun c => properAncestor c path || properAncestor path c)
+  { s with fs := fs2, claimedFiles := path :: s.claimedFiles, inProg := path :: s.inProg,
+           obligation := s.obligation || bad }
+
 /-- checks and preparation of `build_file`, up to the point where the function is called -/
 def bfSetup (s : SpecSt) (path : Path) : Except Exc (SpecSt × List Path) :=
   if s.claimedFiles.contains path then .error (.runtime .dupFile)
@@ -93,13 +103,7 @@ def bfSetup (s : SpecSt) (path : Path) : Except Exc (SpecSt × List Path) :=
   else match dirsToMake (visible s) s.cacheFile s.inProg path.dropLast with
     | .error e => .error (.os e)
     | .ok ds =>
-      if s.failFiles.contains path then .error (.os .other) else
-      let fs1 := mkdirs s.fs ds
-      let fs2 := if fs1.isFile path then fs1.erase path else fs1
-      -- the documented obligation concerns outputs: targets that are being built or were built
-      let bad := (s.inProg ++ s.outputs).any (fun c => properAncestor c path || properAncestor path c)
-      .ok ({ s with fs := fs2, claimedFiles := path :: s.claimedFiles, inProg := path :: s.inProg,
-                    obligation := s.obligation || bad }, ds)
+      if s.failFiles.contains path then .error (.os .other) else .ok (setupState s path ds, ds)
 
 def pendingFind (pending : List (Path × String × Nat)) (p : Path) : Option (String × Nat) :=
   match pending.find? (fun x => x.1 = p) with
